@@ -69,13 +69,15 @@ func VerifC02OnUpdate() {
 	ids := make([]store.NodeID, npeers+1)
 	cellOf := make([]string, npeers+1)
 	isHost := verifapi.Bool("node.ishost")
+	peerIsHost := make([]bool, npeers+1)
 	for i := 0; i <= npeers; i++ {
 		ids[i] = store.NodeID(verifapi.NodeID(i))
 		n := store.Node{ID: ids[i], LastSeen: last}
 		if i == 0 {
 			n.IsHost = isHost
 		} else {
-			n.IsHost = verifapi.Bool(fmt.Sprint("peer.ishost", i))
+			peerIsHost[i] = verifapi.Bool(fmt.Sprint("peer.ishost", i))
+			n.IsHost = peerIsHost[i]
 		}
 		if err := db.SetNode(n); err != nil {
 			verifapi.Unreachable("c02.setup")
@@ -93,7 +95,8 @@ func VerifC02OnUpdate() {
 	}
 	peers := []store.Node{}
 	for i := 1; i <= npeers; i++ {
-		peers = append(peers, store.Node{ID: ids[i]})
+		// active peers are billed whether they are hosts or not (a client's peer may itself be a client)
+		peers = append(peers, store.Node{ID: ids[i], IsHost: peerIsHost[i], LastSeen: last})
 		count[cellOf[i]]++
 	}
 	node := store.Node{ID: ids[0], IsHost: isHost, LastSeen: last}
